@@ -3,7 +3,8 @@
 //!
 //! Requests
 //!   `lu|plu <kind> <h> <w> <bits…>`            kind ∈ vv (Vec<Vec<f64>>), rvv (&Vec<Vec<f64>>),
-//!                                              rvi (&Vec<Vec<i32>>), ra (&Arr2D<f64>), rai (&Arr2D<i32>)
+//!                                              rvi (&Vec<Vec<i32>>), ra (&Arr2D<f64>), rai (&Arr2D<i32>),
+//!                                              rvs / ras (f32 elements), rvu / rau (u8 elements)
 //!   `lu|plu vvj|rvvj <nrows> (<len> <bits…>)*`  jagged nested vectors (owned / borrowed)
 //!   `lu3|plu3 <a00> … <a12>`                   the 125 integer 3×3 matrices over −2..2 whose first two rows
 //!                                              are given (one answer token group per third row)
@@ -248,6 +249,28 @@ fn arr_i(g: &G) -> Arr2D<i32> {
     a
 }
 
+fn arr_t<T: Copy>(g: &G, zero: T, f: impl Fn(f64) -> T) -> Arr2D<T> {
+    let mut a = Arr2D::full(zero, g.h, g.w);
+    for i in 0..g.h {
+        for j in 0..g.w {
+            a[(i, j)] = f(g.at(i, j));
+        }
+    }
+    a
+}
+fn rows_t<T>(g: &G, f: impl Fn(f64) -> T) -> Vec<Vec<T>> {
+    g.rows().iter().map(|r| r.iter().map(|x| f(*x)).collect()).collect()
+}
+fn fits_f32(v: &[f64]) -> bool {
+    v.iter().all(|x| ((*x as f32) as f64).to_bits() == x.to_bits())
+}
+fn fits_u8(v: &[f64]) -> bool {
+    v.iter().all(|x| (0.0..=255.0).contains(x) && ((*x as u8) as f64).to_bits() == x.to_bits())
+}
+fn fits_i32(v: &[f64]) -> bool {
+    v.iter().all(|x| x.abs() < 2e9 && ((*x as i32) as f64).to_bits() == x.to_bits())
+}
+
 pub enum Out {
     Lu(Arr2D<f64>, Arr2D<f64>),
     Plu(Arr2D<f64>, Arr2D<f64>, Arr2D<f64>),
@@ -489,15 +512,18 @@ fn check_factors(a: &G, l: &G, u: &G, p: Option<&G>) -> Result<(), String> {
     Ok(())
 }
 
+const SAFE_LO: f64 = 4.464794497196387e-103; // 2^-340
+const SAFE_HI: f64 = 2.2397447421778042e102; // 2^340
+
 fn oracle(plu: bool, input: &Input, out: &Out) -> Result<(), String> {
+    // The statement says "reported as an error" / "rejected": WHICH error kind is compared with the model only; for
+    // the property every error is a refusal.
+    let refused = matches!(out, Out::NonSquare | Out::Singular | Out::Invalid | Out::OtherErr(_));
     let a = match input {
         Input::Jagged(rows) => {
             let w = rows.first().map(|r| r.len()).unwrap_or(0);
             if rows.iter().any(|r| r.len() != w) {
-                return match out {
-                    Out::Invalid => Ok(()),
-                    _ => Err("rows of different lengths were not rejected".into()),
-                };
+                return if refused { Ok(()) } else { Err("rows of different lengths were not rejected".into()) };
             }
             G { h: rows.len(), w: if rows.is_empty() { 0 } else { w }, v: rows.concat() }
         }
@@ -512,21 +538,20 @@ fn oracle(plu: bool, input: &Input, out: &Out) -> Result<(), String> {
     if let Out::Panic = out {
         return Err("the decomposition panicked".into());
     }
-    if let Out::OtherErr(e) = out {
-        return Err(format!("unexpected error {e}"));
-    }
     if a.h != a.w {
-        return match out {
-            Out::NonSquare => Ok(()),
-            _ => Err(format!("non-square {}x{} input was not rejected as NonSquareMatrix", a.h, a.w)),
-        };
+        return if refused { Ok(()) } else { Err(format!("non-square {}x{} input was not rejected", a.h, a.w)) };
+    }
+    // NaN / infinite entries are outside the property; entries outside 2^-340 .. 2^340 can under- or overflow in a
+    // product of three, where the (purely relative) rounding model of the clauses below does not apply: such inputs
+    // are generated, but only compared with the model
+    if !a.v.iter().all(|x| x.is_finite() && (*x == 0.0 || (x.abs() >= SAFE_LO && x.abs() <= SAFE_HI))) {
+        return Ok(());
     }
     let (expect, why) = expectation(plu, &a);
     match out {
-        Out::NonSquare | Out::Invalid => Err("square input rejected for its shape".into()),
-        Out::Singular => {
+        Out::NonSquare | Out::Invalid | Out::Singular | Out::OtherErr(_) => {
             if expect == Some(true) {
-                Err(format!("refused as singular: {why}"))
+                Err(format!("refused ({}): {why}", show(out)))
             } else {
                 Ok(())
             }
@@ -549,7 +574,7 @@ fn oracle(plu: bool, input: &Input, out: &Out) -> Result<(), String> {
             }
             check_factors(&a, &G::of_arr(l), &G::of_arr(u), Some(&G::of_arr(p)))
         }
-        Out::OtherErr(_) | Out::Panic => unreachable!(),
+        Out::Panic => unreachable!(),
     }
 }
 
@@ -577,6 +602,26 @@ fn run_one(plu: bool, kind: &str, input: &Input) -> Out {
             let a = arr_i(g);
             call(plu, &a)
         }
+        ("rvs", Input::Rect(g, _)) => {
+            assert!(fits_f32(&g.v), "request values not representable in f32");
+            let v = rows_t(g, |x| x as f32);
+            call(plu, &v)
+        }
+        ("ras", Input::Rect(g, _)) => {
+            assert!(fits_f32(&g.v), "request values not representable in f32");
+            let a = arr_t(g, 0f32, |x| x as f32);
+            call(plu, &a)
+        }
+        ("rvu", Input::Rect(g, _)) => {
+            assert!(fits_u8(&g.v), "request values not representable in u8");
+            let v = rows_t(g, |x| x as u8);
+            call(plu, &v)
+        }
+        ("rau", Input::Rect(g, _)) => {
+            assert!(fits_u8(&g.v), "request values not representable in u8");
+            let a = arr_t(g, 0u8, |x| x as u8);
+            call(plu, &a)
+        }
         ("vvj", Input::Jagged(rows)) => call(plu, rows.clone()),
         ("rvvj", Input::Jagged(rows)) => call(plu, rows),
         _ => panic!("unknown container kind {kind}"),
@@ -586,6 +631,17 @@ fn run_one(plu: bool, kind: &str, input: &Input) -> Out {
 /// weighted sum of magnitudes + mask of negative entries: a compact, order-sensitive digest of a result
 /// that still compares numerically (used only by the `lu3`/`plu3` sweeps)
 fn digest(ms: &[&Arr2D<f64>]) -> String {
+    // entries below 2^-30 of the largest one do not enter the sign mask (an entry whose exact value is 0 comes out as
+    // 0 or as +-1e-17 depending on the order of the floating-point sums); the Lean driver computes the same digest
+    let mut big = 0.0f64;
+    for m in ms {
+        for x in &G::of_arr(m).v {
+            if big < x.abs() {
+                big = x.abs();
+            }
+        }
+    }
+    let thr = big * 2f64.powi(-30);
     let mut s = 0.0f64;
     let mut mask = 0u64;
     let mut k = 0u32;
@@ -594,7 +650,7 @@ fn digest(ms: &[&Arr2D<f64>]) -> String {
         for x in &g.v {
             k += 1;
             s += (k as f64) * x.abs();
-            if *x < 0.0 {
+            if *x < 0.0 && thr <= x.abs() {
                 mask |= 1u64 << (k - 1);
             }
         }
@@ -971,5 +1027,327 @@ pub fn generate(seed: u64, thorough: bool, emit: &mut dyn FnMut(String)) {
                 emit(format!("plu {kind} {s}"));
             }
         }
+    }
+    harden(&mut rng, thorough, emit);
+}
+
+// ------------------------------------------------------------------------------------------------
+// families added after the seeded-change rounds (scale, size, zeros/signs/ties, rare paths, NaN)
+
+/// a container kind that can hold these values, rotating with `k` over all that can
+fn kind_for(v: &[f64], k: usize) -> &'static str {
+    let mut kinds: Vec<&'static str> = FKINDS.to_vec();
+    if fits_i32(v) {
+        kinds.extend(["rai", "rvi"]);
+    }
+    if fits_f32(v) {
+        kinds.extend(["ras", "rvs"]);
+    }
+    if fits_u8(v) {
+        kinds.extend(["rau", "rvu"]);
+    }
+    kinds[k % kinds.len()]
+}
+
+fn dense(rng: &mut Rng, n: usize) -> Vec<f64> {
+    (0..n * n).map(|_| rng.uniform(-1.0, 1.0)).collect()
+}
+
+fn sgn(rng: &mut Rng) -> f64 {
+    if rng.chance(1, 2) { -1.0 } else { 1.0 }
+}
+
+fn p2(e: i64) -> f64 {
+    2f64.powi(e as i32)
+}
+
+fn shuffle_rows(rng: &mut Rng, n: usize, v: &mut [f64]) {
+    for i in (1..n).rev() {
+        let j = rng.below(i as u64 + 1) as usize;
+        for c in 0..n {
+            v.swap(i * n + c, j * n + c);
+        }
+    }
+}
+
+/// `L0 U0` in small integers (every operation of the plain algorithm is exact); `U0[z][z] = 0` when `z < n`
+fn int_product(rng: &mut Rng, n: usize, z: usize) -> Vec<f64> {
+    let mut l0 = vec![0.0; n * n];
+    let mut u0 = vec![0.0; n * n];
+    for i in 0..n {
+        for j in 0..n {
+            if i == j {
+                l0[i * n + j] = 1.0;
+                u0[i * n + j] = if i == z { 0.0 } else { *rng.pick(&[-2.0, -1.0, 1.0, 2.0, 3.0]) };
+            } else if i > j {
+                l0[i * n + j] = rng.range(-1, 1) as f64;
+            } else {
+                u0[i * n + j] = rng.range(-2, 2) as f64;
+            }
+        }
+    }
+    matmul(n, &l0, &u0)
+}
+
+fn harden(rng: &mut Rng, thorough: bool, emit: &mut dyn FnMut(String)) {
+    let reps = if thorough { 20 } else { 1 };
+
+    // ---- RARE PATHS: nested vectors of EVERY row-length tuple 0..4 for 2..4 rows (owned and borrowed)
+    for r in 2..=4usize {
+        let mut lens = vec![0usize; r];
+        let mut k = 0usize;
+        loop {
+            let mut s = format!("{r}");
+            for l in &lens {
+                let row: Vec<f64> = (0..*l).map(|_| rng.range(1, 5) as f64).collect();
+                s.push(' ');
+                s.push_str(&req_vec_f(&row));
+            }
+            let kind = if k % 2 == 0 { "vvj" } else { "rvvj" };
+            k += 1;
+            emit(format!("lu {kind} {s}"));
+            emit(format!("plu {kind} {s}"));
+            let mut i = 0;
+            while i < r {
+                lens[i] += 1;
+                if lens[i] <= 4 {
+                    break;
+                }
+                lens[i] = 0;
+                i += 1;
+            }
+            if i == r {
+                break;
+            }
+        }
+    }
+    // every element type: f32 and u8 containers (dyadic / byte matrices), all orders up to 10
+    for k in 0..160 * reps {
+        let n = 1 + rng.below(10) as usize;
+        let v: Vec<f64> = if k % 2 == 0 {
+            (0..n * n).map(|_| rng.dyadic(64, 6)).collect()
+        } else {
+            (0..n * n).map(|_| if rng.chance(1, 4) { rng.range(0, 255) } else { rng.range(0, 4) } as f64).collect()
+        };
+        let kind = if k % 2 == 0 { ["ras", "rvs"][k / 2 % 2] } else { ["rau", "rvu"][k / 2 % 2] };
+        both(emit, kind, n, &v);
+    }
+
+    // ---- SIZE: every order 11..=40 once (48, 64 in the thorough tier): dense, diagonally dominant, and integer
+    // products with a vanishing leading minor somewhere (exact at every order)
+    for n in (11..=40usize).chain([48, 64]) {
+        if n > 40 && !thorough {
+            continue;
+        }
+        let mut v = dense(rng, n);
+        if n % 2 == 0 {
+            for i in 0..n {
+                let off: f64 = (0..n).filter(|&j| j != i).map(|j| v[i * n + j].abs()).sum();
+                v[i * n + i] = (off + rng.uniform(0.5, 2.0)) * sgn(rng);
+            }
+        }
+        both(emit, FKINDS[n % 3], n, &v);
+        let z = if n % 3 == 0 { n } else { rng.below(n as u64) as usize };
+        let a = int_product(rng, n, z);
+        both(emit, kind_for(&a, n), n, &a);
+    }
+
+    for (h, w) in [(17usize, 16usize), (16, 17), (40, 39), (39, 40), (1, 40), (40, 1)] {
+        let v: Vec<f64> = (0..h * w).map(|_| rng.uniform(-1.0, 1.0)).collect();
+        emit_mat(emit, "lu", FKINDS[h % 3], h, w, &v);
+        emit_mat(emit, "plu", FKINDS[w % 3], h, w, &v);
+    }
+
+    // ---- SCALE
+    for k in 0..500 * reps {
+        let n = 1 + rng.below(10) as usize;
+        let mut v = dense(rng, n);
+        if k % 4 == 0 {
+            // diagonally dominant by rows: plain LU has to succeed whatever the scaling below does to the magnitudes
+            for i in 0..n {
+                let off: f64 = (0..n).filter(|&j| j != i).map(|j| v[i * n + j].abs()).sum();
+                v[i * n + i] = (off + rng.uniform(0.5, 2.0)) * sgn(rng);
+            }
+        }
+        match k % 8 {
+            // the whole matrix at magnitude 2^e: e = -70..60, and around the absolute pivot threshold 2^-52
+            0 => {
+                let e = rng.range(-70, 60);
+                v.iter_mut().for_each(|x| *x *= p2(e));
+            }
+            1 => {
+                let e = rng.range(-56, -46);
+                v.iter_mut().for_each(|x| *x *= p2(e));
+            }
+            // rows / columns / both scaled by 2^-60..2^60
+            2 | 3 | 4 => {
+                for i in 0..n {
+                    let (sr, sc) = (p2(rng.range(-60, 60)), p2(rng.range(-60, 60)));
+                    for j in 0..n {
+                        if k % 8 != 3 {
+                            v[i * n + j] *= sr;
+                        }
+                        if k % 8 != 2 {
+                            v[j * n + i] *= sc;
+                        }
+                    }
+                }
+            }
+            // one huge row or column (2^40 .. 2^60, i.e. 1e12 .. 1e18), the rest of order 1
+            5 => {
+                let t = rng.below(n as u64) as usize;
+                let s = p2(rng.range(40, 60));
+                for j in 0..n {
+                    if k % 16 < 8 {
+                        v[t * n + j] *= s;
+                    } else {
+                        v[j * n + t] *= s;
+                    }
+                }
+            }
+            // single entries 2^-60 .. 2^-20 below the rest: an absolute "negligible entry" test
+            6 => {
+                for x in v.iter_mut() {
+                    if rng.chance(1, 3) {
+                        *x *= p2(-rng.range(20, 60));
+                    }
+                }
+            }
+            // the whole matrix huge: 2^60 .. 2^300
+            _ => {
+                let e = rng.range(60, 300);
+                v.iter_mut().for_each(|x| *x *= p2(e));
+            }
+        }
+        both(emit, FKINDS[k % 3], n, &v);
+    }
+    // graded columns: the part of a column below the diagonal is 10^-t (t = 1..17) of its head, or exactly zero
+    // (already reduced); with the rows in order and shuffled
+    for k in 0..170 * reps {
+        let n = 2 + rng.below(9) as usize;
+        let t = (k % 17 + 1) as i32;
+        let mut v = dense(rng, n);
+        for j in 0..n {
+            let mode = rng.below(3);
+            for i in j + 1..n {
+                match mode {
+                    0 => v[i * n + j] *= 10f64.powi(-t),
+                    1 => v[i * n + j] = if rng.chance(1, 2) { 0.0 } else { -0.0 },
+                    _ => {}
+                }
+            }
+            v[j * n + j] = rng.uniform(0.5, 1.0) * sgn(rng);
+        }
+        if k % 2 == 1 {
+            shuffle_rows(rng, n, &mut v);
+        }
+        if k % 5 == 0 {
+            let e = rng.range(10, 60);
+            v.iter_mut().for_each(|x| *x *= p2(e));
+        }
+        both(emit, FKINDS[k % 3], n, &v);
+    }
+    // the last pivot at every relative distance 10^-1 .. 10^-17 above and below the absolute threshold EPSILON, and a
+    // small last pivot d = 10^-1 .. 10^-17 in a matrix of order-1 entries
+    for k in 0..136 * reps {
+        let n = 1 + rng.below(4) as usize;
+        let t = (k % 17 + 1) as i32;
+        let d = if k % 4 < 2 { f64::EPSILON * (1.0 + sgn(rng) * 10f64.powi(-t)) } else { 10f64.powi(-t) } * sgn(rng);
+        let mut l0 = vec![0.0; n * n];
+        let mut u0 = vec![0.0; n * n];
+        for i in 0..n {
+            for j in 0..n {
+                if i == j {
+                    l0[i * n + j] = 1.0;
+                    u0[i * n + j] = if i == n - 1 { d } else { *rng.pick(&[-2.0, -1.0, 1.0, 2.0]) };
+                } else if i > j {
+                    l0[i * n + j] = rng.range(-1, 1) as f64 * 0.5;
+                } else {
+                    u0[i * n + j] = rng.range(-2, 2) as f64;
+                }
+            }
+        }
+        let a = matmul(n, &l0, &u0);
+        both(emit, FKINDS[k % 3], n, &a);
+    }
+    // subnormal and near-overflow matrices (outside the oracle's rounding model: compared with the model only)
+    for k in 0..30 * reps {
+        let n = 1 + rng.below(4) as usize;
+        let e = if k % 2 == 0 { -rng.range(1000, 1070) } else { rng.range(900, 1020) };
+        let v: Vec<f64> = dense(rng, n).iter().map(|x| x * p2(e)).collect();
+        both(emit, FKINDS[k % 3], n, &v);
+    }
+
+    // ---- ZEROS / SIGNS / TIES
+    for k in 0..400 * reps {
+        let n = 1 + rng.below(9) as usize;
+        let mut v = dense(rng, n);
+        match k % 10 {
+            // every entry negative
+            0 => v.iter_mut().for_each(|x| *x = -x.abs() - 0.01),
+            // in every column the entry of largest magnitude is negative and the others are small and positive
+            // (a pivot search without the absolute value takes a small positive one: multipliers above 1)
+            1 | 2 => {
+                let mut p: Vec<usize> = (0..n).collect();
+                for i in (1..n).rev() {
+                    let j = rng.below(i as u64 + 1) as usize;
+                    p.swap(i, j);
+                }
+                for j in 0..n {
+                    for i in 0..n {
+                        v[i * n + j] = if p[j] == i { -rng.uniform(2.0, 4.0) } else { rng.uniform(0.01, 0.4) / n as f64 };
+                    }
+                }
+            }
+            // integers: negative dominant column entries, zero otherwise the maximum of the column
+            3 => {
+                for j in 0..n {
+                    let i0 = rng.below(n as u64) as usize;
+                    for i in 0..n {
+                        v[i * n + j] = if i == i0 { -rng.range(2, 9) as f64 } else if rng.chance(1, 2) { 0.0 } else { rng.range(-1, 1) as f64 };
+                    }
+                }
+            }
+            // upper triangular, lower triangular, diagonal (with signed zeros)
+            4 => (0..n * n).for_each(|t| if t / n > t % n { v[t] = 0.0 }),
+            5 => (0..n * n).for_each(|t| if t / n < t % n { v[t] = 0.0 }),
+            6 => (0..n * n).for_each(|t| if t / n != t % n { v[t] = if t % 2 == 0 { 0.0 } else { -0.0 } }),
+            // a zero diagonal entry that only pivoting can repair; zero leading entry
+            7 => {
+                let t = rng.below(n as u64) as usize;
+                v[t * n + t] = 0.0;
+            }
+            // zero first column below the first row
+            8 => (1..n).for_each(|i| v[i * n] = 0.0),
+            // exact ties in every pivot column: +-1 and +-1/2 only
+            _ => v.iter_mut().for_each(|x| *x = if x.abs() < 0.5 { 0.5 } else { 1.0 } * x.signum()),
+        }
+        if (4..=6).contains(&(k % 10)) && rng.chance(1, 2) {
+            shuffle_rows(rng, n, &mut v);
+        }
+        both(emit, kind_for(&v, k), n, &v);
+    }
+    // near ties in the pivot column: candidates 1 +- 10^-t (t = 1..17) of each other, the largest not first
+    for k in 0..170 * reps {
+        let n = 2 + rng.below(7) as usize;
+        let d = 10f64.powi(-((k % 17) as i32 + 1));
+        let mut v = dense(rng, n);
+        for j in 0..n {
+            for i in 0..n {
+                if rng.chance(2, 3) {
+                    v[i * n + j] = (1.0 + d * rng.range(-2, 2) as f64) * sgn(rng);
+                }
+            }
+        }
+        both(emit, FKINDS[k % 3], n, &v);
+    }
+
+    // ---- NaN / infinities in the input (correspondence only)
+    for k in 0..60 * reps {
+        let n = 1 + rng.below(4) as usize;
+        let mut v = dense(rng, n);
+        let t = rng.below((n * n) as u64) as usize;
+        v[t] = [f64::NAN, f64::INFINITY, f64::NEG_INFINITY, 1e308, -1.7e308, 5e-324][k % 6];
+        both(emit, FKINDS[k % 3], n, &v);
     }
 }
